@@ -7,7 +7,10 @@ import (
 
 	"github.com/jamf/regatta/regattapb"
 	"github.com/jamf/regatta/regattaserver"
+	"github.com/cockroachdb/pebble/vfs"
 	"github.com/jamf/regatta/storage"
+	"github.com/jamf/regatta/storage/table/fsm"
+	sm "github.com/lni/dragonboat/v4/statemachine"
 	"google.golang.org/grpc"
 )
 
@@ -102,4 +105,100 @@ func runC11Forwarding(sum *Summary) {
 		}
 		_ = q.Close()
 	}
+}
+
+// runC11Applied: the apply path reports an index to the queue (appliedFunc -> Notify); at that moment the batch must
+// already be readable on this node, otherwise a released caller's next read misses its own write.
+func runC11Applied(sum *Summary) error {
+	var f *fsm.FSM
+	type obs struct {
+		applied uint64
+		leader  uint64
+		val     string
+	}
+	var seen []obs
+	af := func(applied uint64) {
+		if f == nil {
+			return
+		}
+		o := obs{applied: applied}
+		if li, err := f.Lookup(fsm.LeaderIndexRequest{}); err == nil {
+			o.leader = li.(*fsm.IndexResponse).Index
+		}
+		if r, err := f.Lookup(&regattapb.RequestOp_Range{Key: []byte("k")}); err == nil {
+			if kvs := r.(*regattapb.ResponseOp_Range).Kvs; len(kvs) == 1 {
+				o.val = string(kvs[0].Value)
+			}
+		}
+		seen = append(seen, o)
+	}
+	f = fsm.New("t", "/data", vfs.NewMem(), nil, nil, fsm.RecoveryTypeSnapshot, af)(1, 1).(*fsm.FSM)
+	if _, err := f.Open(nil); err != nil {
+		return err
+	}
+	defer f.Close()
+	for i := uint64(1); i <= 40; i++ {
+		li := 100 + i
+		_, bts := wireNormal(gCmd{Kind: regattapb.Command_PUT, K: []byte("k"), V: []byte(fmt.Sprintf("v%d", li)), Leader: &li})
+		seen = nil
+		if _, err := f.Update([]sm.Entry{{Index: i, Cmd: bts}}); err != nil {
+			return err
+		}
+		sum.Evaluations++
+		for _, o := range seen {
+			if o.applied == li && (o.leader < li || o.val != fmt.Sprintf("v%d", li)) {
+				sum.violate(9500+int(i), "the apply path reports an index before the batch is readable on the node", map[string]any{"leader_index": li},
+					fmt.Sprintf("at the report: leader index on the node %d, value of the key written by the batch %q", o.leader, o.val))
+				return nil
+			}
+		}
+	}
+	sum.hist("forwarded_writes").Inc("apply-path report vs readable state")
+	return nil
+}
+
+// runC11ManyTables: notifications of several tables arriving together, while the loop is busy with statistics
+// requests: every table's waiters whose revision is reached are released.
+func runC11ManyTables(sum *Summary) {
+	q := storage.NewNotificationQueue()
+	go q.Run()
+	defer q.Close()
+	const ntab = 6
+	stop := make(chan struct{})
+	go func() {
+		for {
+			select {
+			case <-stop:
+				return
+			default:
+				q.Len("t0")
+			}
+		}
+	}()
+	defer close(stop)
+	rounds := 150
+	for r := 1; r <= rounds; r++ {
+		chans := make([]<-chan error, ntab)
+		for t := 0; t < ntab; t++ {
+			chans[t] = q.Add(context.Background(), fmt.Sprintf("t%d", t), uint64(r))
+		}
+		for t := 0; t < ntab; t++ {
+			go q.Notify(fmt.Sprintf("t%d", t), uint64(r))
+		}
+		deadline := time.After(1500 * time.Millisecond)
+		for t := 0; t < ntab; t++ {
+			select {
+			case err := <-chans[t]:
+				if err != nil {
+					sum.violate(9700+r, "a live waiter was answered with an error", map[string]any{"tables": ntab, "round": r}, err.Error())
+					return
+				}
+			case <-deadline:
+				sum.violate(9700+r, "a waiter is not released although its table reported an index at or beyond its revision (notifications of several tables arriving together)", map[string]any{"tables": ntab, "round": r, "table": fmt.Sprintf("t%d", t)}, "no answer within 1.5 s")
+				return
+			}
+		}
+		sum.Evaluations++
+	}
+	sum.hist("forwarded_writes").Inc("notifications of several tables together")
 }
